@@ -149,7 +149,13 @@ func recurseValidationCode(att *expr.AttributeExpr, put expr.UserType, attCtx *A
 		if keyVal != "" {
 			keyVal = "\n" + keyVal
 		}
-		valueVal := validateAttribute(ctx, m.ElemType, put, "v", context+"[key]", true, view)
+		elemCtx := ctx
+		if attCtx.Pointer && !expr.IsPrimitive(m.ElemType.Type) {
+			// Only map elements of primitive type are never pointers: the
+			// fields of user type elements follow the enclosing context.
+			elemCtx = attCtx
+		}
+		valueVal := validateAttribute(elemCtx, m.ElemType, put, "v", context+"[key]", true, view)
 		if valueVal != "" {
 			valueVal = "\n" + valueVal
 		}
